@@ -306,18 +306,19 @@ PROPS = {
                       "TrackShared and TrackHandle for ALL trees, histories and abstract sounds/effects: a non-advancing track returns "
                       "exact silence, feeds no send and leaves every sound, effect, sub-track and pending resource below it unchanged, for any "
                       "number of chunks, so the first advancing chunk is computed from the frozen subtree; should_be_removed <-> handle dropped "
-                      "and (not persisting or no inserted sounds) and all inserted sub-tracks removable, hence never while an inserted "
-                      "descendant is not removable; at on_start_processing ring tracks are inserted (even if already dropped: 'the one after') "
-                      "and exactly the removable inserted tracks disappear; in every state reachable by histories whose awaited clocks exist "
-                      "the handle state decodes to one of the five track states and equals the manager's state. Proved FALSE at full strength, "
-                      "with model witnesses replayed on the real code by the suite: state() panics after resume_at on a vanished clock "
-                      "(C12_state_stopped_reachable), pending sounds / pending sub-tracks are ignored by the removal rule "
-                      "(C12_pending_sound_lost, C12_pending_child_lost). The same definitions run as a Float twin, bit-exact with kira",
-        "level_note": "C12_state_decodable and the persistence / live-descendant clauses of C12_removed_when hold only in the _partial form "
-                      "(three known findings); 'resume continues' is stated on sound/effect/sub-track states (positions are part of those "
+                      "and (not persisting or no sound inserted or pending) and no pending sub-track and all inserted sub-tracks removable, hence "
+                      "never while any descendant (inserted or in a ring, any depth) has a live handle, and a dropped persisting track stays "
+                      "until its last sound (pending ones included) has finished; at on_start_processing ring tracks are inserted (even if "
+                      "already dropped: 'the one after'), exactly the removable inserted tracks disappear and every non-removable one is still "
+                      "there; in every reachable state (any histories, awaited clocks present or not) the manager is never Stopping/Stopped, "
+                      "the published byte is its state and TrackHandle::state() (total) returns exactly it; a track whose awaited clock does "
+                      "not exist ends Paused and obeys a later resume. The three former findings (state() panic after a dropped clock, "
+                      "pending sound / pending sub-track ignored by the removal rule) are repaired in kira and their histories are theorems "
+                      "(C12_missing_clock_leaves_paused, C12_pending_sound_kept, C12_pending_child_kept) and regression cases of the suite. "
+                      "The same definitions run as a Float twin, bit-exact with kira",
+        "level_note": "'resume continues' is stated on sound/effect/sub-track states (positions are part of those "
                       "abstract states; the probe corollary shows `produced` frozen); fades/positions of real sounds are C03/C04's models",
         "assumptions": [
-            "a spatial track's Info differs from its parent's only in the listener part (clock lookups are inherited)",
             "ids stand for Arc<TrackShared> identities; arena keys/generations are not modelled (C08)",
         ],
     },
